@@ -563,8 +563,8 @@ class Driver:
                 self.cov.inc("timeouts_fired")
                 self.cov.hit("timeout_fired_at_quiet_ticks(since-effect/since-sent)", f"{s.quiet_all}/{s.quiet_on}|T={self.T}")
                 if s.ended is None and s.quiet_all <= self.T - 1:
-                    self.v("timeout-fires-early", f"remote session #{k} was timed out {s.quiet_all} tick(s) after the server executed a "
-                           f"command on it (remote_session_timeout_steps={self.T})")
+                    self.v("timeout-fires-early", f"remote session #{k} was timed out {s.quiet_all} tick(s) after its login / the last command the "
+                           f"server executed on it (remote_session_timeout_steps={self.T})")
                     return f"fired={fired}"
         return f"fired={fired}"
 
@@ -626,14 +626,16 @@ def run_seq(ops, cov, out, ctx, limit, timeout, pre_users, subject=None):
 class Check:
     pid = "C16"
     level = "exploration"
-    rule = ("case = family x chunk. Exhaustive families: (subject account in {default admin; pre-configured non-admin u1 next to a second "
-            "admin}) x (limit, time-out) in {(3,3),(2,2)} x preamble in {none; two remote logins of the subject from both clients; three} x "
-            "EVERY op sequence of length DEPTH over a 22-op alphabet {remote login right/wrong/original password from client_1/client_2 via "
+    rule = ("case = family x chunk. Exhaustive families: subject account 'admin' (default account, limit 3, time-out 3) and 'u1' (non-admin "
+            "configured in the scenario next to a second admin, limit 2, time-out 2) x preamble in {none; two remote logins of the subject, "
+            "one from each client; three} x EVERY op sequence of length DEPTH (quick: 3 after preamble none/two, 2 after three; thorough: 3-4) "
+            "over a 22-op alphabet (18 of them for some families) {remote login right/wrong/original password from client_1/client_2 via "
             "Terminal.login and the node-session-remote-login action; command on session #0/#1 through its connection object (+ replayed "
             "on the closed handle), node-send-remote-command; logoff by connection object and node-session-remote-logoff; "
             "node-account-change-password right/wrong old; node-account-disable-user subject/admin; node-account-add-user; tick x1, "
             "tick x(T+2); server power toggle, server terminal stop/start, client power toggle; local login; node-send-local-command "
-            "right/wrong password}, plus deeper sequences over 12- and 8-op sub-alphabets; random sequences of length 40 over a ~330-entry "
+            "right/wrong password}, plus deeper sequences (quick: 4 over 9 ops after two logins, 5 over the 6 limit-boundary ops {login x2, "
+            "logoff x2, tick x(T+2), command}; thorough: 5 and 6); random sequences of length 40 over a ~330-entry "
             "weighted alphabet (4 accounts + unknown user, 6 session ordinals, user-session-manager remote_login/remote_logout requests, "
             "client terminal stop/start, ticks T-1/T/T+2). Every remote command creates a uniquely named folder. Non-trivial sequence: >=1 "
             "remote login granted and >=1 negatively judged event (login the model forbids, command on a session the model says is not "
@@ -652,7 +654,7 @@ class Check:
         "remote_session_timeout_steps and max_remote_sessions are set directly on the server's UserSessionManager object (no config route)",
         "server power state is read from the real node (its FSM is C12's business); all start-up/shut-down durations are 0",
     ]
-    min_monitor = {"cmds_on_dead_sessions": 3000, "cmd_effects_on_live": 3000, "logins_judged_negative": 3000, "logins_at_limit": 300,
+    min_monitor = {"cmds_on_dead_sessions": 2000, "cmd_effects_on_live": 3000, "logins_judged_negative": 3000, "logins_at_limit": 300,
                    "remote_logins_ok": 10000, "admin_invariant_evals": 50000, "timeouts_fired": 500, "disable_last_admin_attempts": 200,
                    "password_changes_with_several_sessions_of_user": 300, "replayed_cmds": 500, "local_cmds_with_invalid_credentials": 300}
     case_timeout = {"quick": 1500, "thorough": 5400}
